@@ -703,9 +703,9 @@ class RealBackend(object):
     def _enter_body(self, inst):
         self.chain.append(inst)
         inst.nstep += 1
-        if self.probe_rng is not None and self.probe_rate and self.probe_rng.random() < self.probe_rate:
+        if self.probe_rng is not None and self.probe_rate and self.probes["probe_points"] < 150 and self.probe_rng.random() < self.probe_rate:
             self._probe_all("step of %s" % inst.token)
-        if self.outcome_rate and self.probe_rng.random() < self.outcome_rate:
+        if self.outcome_rate and self.probes["outcome_probe_points"] < 150 and self.probe_rng.random() < self.outcome_rate:
             self._probe_outcomes("step of %s" % inst.token)
 
     def _probe_outcomes(self, where):
@@ -741,6 +741,8 @@ class RealBackend(object):
             except HarnessError:
                 raise
             except BaseException as e3:
+                if type(e3).__name__ == "CaseTimeout":
+                    raise
                 self.viol("C10", "stable-outcome", "reading computed %s raised %s (at %s)" % (name, type(e3).__name__, where))
                 continue
             old = self.first_outcome.get(id(f))
@@ -772,6 +774,11 @@ class RealBackend(object):
             objs.append(("scoped value %d" % i, sv))
         for cm in self.live_ctx:
             objs.append(("context %s" % cm.cid, cm))
+        if len(objs) > 80:
+            # bounded cost per probe point: a seeded sample (always keeping the scheduler)
+            keep = objs[-(len(self.svs) + 1 + len(self.live_ctx)):]
+            rest = objs[:len(objs) - len(keep)]
+            objs = self.probe_rng.sample(rest, 70) + keep
         self.probes["objects_printed"] += len(objs)
         self.probes["probe_points"] += 1
         for name, o in objs:
@@ -788,6 +795,8 @@ class RealBackend(object):
                 except HarnessError:
                     raise
                 except BaseException as e:
+                    if type(e).__name__ == "CaseTimeout":
+                        raise
                     self.viol("C18", "total", "%s() of %s raised %s: %s (at %s)" % (fn_name, name, type(e).__name__, str(e)[:100], where))
         for tag, e in list(self.errors.items())[:6]:
             try:
@@ -795,6 +804,8 @@ class RealBackend(object):
                 if not isinstance(r, str):
                     self.viol("C18", "format-error", "format_error(%s) returned %r" % (tag, type(r)))
             except BaseException as ex:
+                if type(ex).__name__ == "CaseTimeout":
+                    raise
                 self.viol("C18", "format-error", "format_error(%s) raised %s: %s" % (tag, type(ex).__name__, str(ex)[:100]))
 
     def _leave_body(self, inst):
@@ -1223,9 +1234,9 @@ class RealBackend(object):
             self.probes["flush_in_nested_wait"] += 1
         if self.flush_hook is not None:
             self.flush_hook(batch)
-        if self.probe_rng is not None and self.probe_rate and self.probe_rng.random() < self.probe_rate:
+        if self.probe_rng is not None and self.probe_rate and self.probes["probe_points"] < 150 and self.probe_rng.random() < self.probe_rate:
             self._probe_all("flush body of %s" % batch.bid)
-        if self.outcome_rate and self.probe_rng.random() < self.outcome_rate:
+        if self.outcome_rate and self.probes["outcome_probe_points"] < 150 and self.probe_rng.random() < self.outcome_rate:
             self._probe_outcomes("flush body of %s" % batch.bid)
         plan = self.flush_faults.get("%d#%d" % (kind, ordn))
         items = list(batch.items)
